@@ -277,7 +277,20 @@ pub fn gen(seed: u64) -> Replay {
             }
         }
     }
-    Replay { property: "C18".into(), simulator: "cpusim".into(), seed, config: json!({"devices": devices, "default_dev_seed": rng.next()}), steps, violation: None, minimised_from_steps: None }
+    let default_dev_seed = rng.next();
+    // a long run of accesses through ONE object (a driver polling a status port or streaming a
+    // sector): per-object state that wraps or saturates shows only after 2^8 / 2^16 uses
+    if rng.chance(1) || (rng.chance(3) && !ids.is_empty()) {
+        if let Some(x) = ids.get(rng.below(ids.len().max(1) as u64) as usize) {
+            let n = if rng.chance(25) { 65_530 + rng.below(600) } else { 250 + rng.below(300) };
+            let write = if x.1 == "ro" { false } else if x.1 == "wo" { true } else { rng.chance(50) };
+            let at = rng.below(steps.len() as u64 + 1) as usize;
+            // only after the object exists
+            let first = steps.iter().position(|s| (s["op"] == "new" && s["id"] == json!(x.0)) || (s["op"] == "clone" && s["new_id"] == json!(x.0))).unwrap_or(0);
+            steps.insert(at.max(first + 1), json!({"op": "burst", "id": x.0, "n": n, "write": write, "value": rng.next() as u32}));
+        }
+    }
+    Replay { property: "C18".into(), simulator: "cpusim".into(), seed, config: json!({"devices": devices, "default_dev_seed": default_dev_seed}), steps, violation: None, minimised_from_steps: None }
 }
 
 // ---- several accesses in one function (values live in registers across port instructions) -------
@@ -463,6 +476,52 @@ pub fn run(rp: &Replay, st: &mut Stats) -> Option<Violation> {
                 st.count("chained_accesses_in_one_function");
                 st.distinct_key(&[9, kind, 0, 0, 0, 0, 0]);
             }
+            "burst" => {
+                let id = s["id"].as_u64().unwrap();
+                let Some((o, port)) = objs.get_mut(&id) else { continue };
+                let port = *port;
+                let (acc, width) = o.kind();
+                let n = s["n"].as_u64().unwrap_or(1).min(70_000) as usize;
+                let is_read = !s["write"].as_bool().unwrap_or(false);
+                let value = s["value"].as_u64().unwrap_or(0) as u32;
+                if (is_read && acc == 2) || (!is_read && acc == 1) {
+                    continue;
+                }
+                let mut got: Vec<u32> = Vec::with_capacity(if is_read { n } else { 0 });
+                let mut done = 0usize;
+                let r = sut_call("burst", || {
+                    for k in 0..n {
+                        if is_read {
+                            got.push(o.read().unwrap_or(0));
+                        } else {
+                            o.write(value.wrapping_add(k as u32));
+                        }
+                        done = k + 1;
+                    }
+                });
+                st.calls += done as u64;
+                let trace = std::mem::take(&mut world().cpu.trace);
+                st.count("long_runs_through_one_object");
+                if n > 65_536 {
+                    st.count("long_runs_beyond_65536_accesses");
+                }
+                if let Err(m) = r {
+                    return Some(viol(&["C18"], "panic", i, format!("access number {} through one {}-bit port object for port {port:#x} panicked: {m}", done + 1, width * 8)));
+                }
+                if trace.len() != n {
+                    return Some(viol(&["C18"], "port-access-count", i, format!("{n} accesses through one {}-bit port object for port {port:#x} executed {} port instruction(s)", width * 8, trace.len())));
+                }
+                for (k, e) in trace.iter().enumerate() {
+                    let ok = match e {
+                        Ev::In { width: w2, port: p2, val } => is_read && *w2 == width && *p2 == port && got.get(k) == Some(val),
+                        Ev::Out { width: w2, port: p2, val } => !is_read && *w2 == width && *p2 == port && *val == value.wrapping_add(k as u32) & mask(width),
+                        _ => false,
+                    };
+                    if !ok {
+                        return Some(viol(&["C18"], "port-access", i, format!("access number {} of a long run through one {}-bit port object for port {port:#x} executed {e:x?}{}", k + 1, width * 8, if is_read { format!(" and returned {:x?}", got.get(k)) } else { format!(" for write({:#x})", value.wrapping_add(k as u32) & mask(width)) })));
+                    }
+                }
+            }
             "read" | "write" => {
                 let id = s["id"].as_u64().unwrap();
                 let Some((o, port)) = objs.get_mut(&id) else { continue };
@@ -514,6 +573,16 @@ pub fn run(rp: &Replay, st: &mut Stats) -> Option<Violation> {
 pub fn simplify(rp: &Replay) -> Vec<Replay> {
     let mut out = vec![];
     for (i, s) in rp.steps.iter().enumerate() {
+        if s["op"] == "burst" {
+            let n = s["n"].as_u64().unwrap_or(0);
+            for c2 in [2u64, 256, 257, 65_536, 65_537] {
+                if c2 < n {
+                    let mut c = rp.clone();
+                    c.steps[i]["n"] = json!(c2);
+                    out.push(c);
+                }
+            }
+        }
         if s["op"] == "write" && s["value"] != json!(1) {
             let mut c = rp.clone();
             c.steps[i]["value"] = json!(1);
